@@ -1,14 +1,17 @@
 #!/bin/sh
-# tools/try_patch.sh <patch.diff> <ID> [extra ./check args]  -- apply a seeded change to /repo, run a check, revert.
+# tools/try_patch.sh <patch.diff> <ID> [extra ./check args]  -- apply a seeded change to the repository (VERIF_REPO, default /repo),
+# run a check from the directory this script lives in, revert.
 P="$(realpath "$1")"; ID="$2"; shift 2
-cd /verif || exit 2
-git -C /repo apply "$P" 2>/dev/null || git -C /repo apply -C1 "$P" || { echo "patch does not apply"; exit 3; }
-./check "$ID" --no-evidence "$@" > /tmp/try_patch.$$.log 2>&1; rc=$?
-git -C /repo checkout -- . 
-grep -v "^Warning\|^WARNING" /tmp/try_patch.$$.log | grep -c "^VIOLATION" | sed 's/^/violations: /'
-grep -v "^Warning\|^WARNING" /tmp/try_patch.$$.log | grep -A3 "^---- violation" | head -12
-tail -8 /tmp/try_patch.$$.log
-rm -f /tmp/try_patch.$$.log
+R="${VERIF_REPO:-/repo}"
+cd "$(dirname "$0")/.." || exit 2
+git -C "$R" apply "$P" 2>/dev/null || git -C "$R" apply -C1 "$P" || { echo "patch does not apply"; exit 3; }
+L=$(mktemp /var/tmp/try_patch.XXXXXX)
+./check "$ID" --no-evidence "$@" > "$L" 2>&1; rc=$?
+git -C "$R" checkout -- .
+grep -v "^Warning\|^WARNING" "$L" | grep -c "^VIOLATION" | sed 's/^/violations: /'
+grep -v "^Warning\|^WARNING" "$L" | grep -A3 "^---- violation" | head -12
+tail -8 "$L"
+rm -f "$L"
 # replays written while the patch was applied are not kept
-git -C /verif ls-files --others --exclude-standard replays | grep -v /fixed- | xargs -r rm -f
+git ls-files --others --exclude-standard replays | grep -v /fixed- | xargs -r rm -f
 echo "exit code: $rc"
